@@ -146,7 +146,7 @@ impl BlpImage {
                 width,
                 height,
                 data_size,
-                pixel_count: width * height,
+                pixel_count: self.header.mipmap_pixels(level),
             });
         }
 
@@ -196,8 +196,8 @@ impl BlpImage {
         let uncompressed_size = self
             .mipmap_info()
             .iter()
-            .map(|info| info.width * info.height * 4) // RGBA
-            .sum::<u32>() as f32;
+            .map(|info| info.pixel_count as u64 * 4) // RGBA
+            .sum::<u64>() as f32;
 
         let compressed_size = self.estimated_file_size() as f32;
 
